@@ -336,6 +336,7 @@ func (s *indexKVStore) getOrCreateValue(bucketID uint32, key []byte,
 			defer bucket.Release()
 		}
 	}
+	verifhook.Yield("index.kvstore.beforeBucketGet")
 	if bucket != nil {
 		// check bucket not nil, maybe not exist under kv store
 		id, ok = bucket.GetValue(key)
